@@ -309,6 +309,54 @@ Proof.
 Qed.
 Print Assumptions C10_pmarshal_history.
 
+(* PROVED PART 3 - the link that was missing at depth > 1: getByPath over nested messages returns exactly the offsets
+   that actx describes (node span or insertion point, and the address chain = the tag offsets of the enclosing messages),
+   for the root value and for every nested level, whatever bytes follow the message. *)
+From DG Require Import ProtoEditRefine2.
+Theorem C10_gwalk_msgs_partial :
+  forall S ids name fs R1 l R2 xo tk t isRoot A hdr B addr,
+  wf_fld S LSingular (TMsg name) (VMsg fs) = true ->
+  actx S name fs ids = Some (R1, l, R2, xo, tk) ->
+  atype S name ids = Some t ->
+  let body := wenc (msg_wire fs) in
+  level_ok isRoot A hdr body B ->
+  blen (A ++ hdr ++ body ++ B) < 2 ^ 63 ->
+  let o := blen A + blen hdr in
+  gwalk all_fixes S (A ++ hdr ++ body ++ B) (blen A) (DMsg name) isRoot (map PField ids) addr
+  = match tk with
+    | [] => GNotFoundLast (astart o R1 l xo) 11 (addr ++ aaddrs o R1 l xo tk)
+    | _ => GFound (mk_gnode (astart o R1 l xo) (astart o R1 l xo + blen xo) (td_type (td_base t)) 0 0 (td_base t) false)
+                  (addr ++ aaddrs o R1 l xo tk)
+    end.
+Proof. exact gwalk_msgs. Qed.
+Print Assumptions C10_gwalk_msgs_partial.
+
+(* PROVED PART 4 = priority (1): the COMPLETE coded SetByPath equals the specification for EVERY path made of field steps,
+   at ANY depth: through present singular sub-messages to a singular field of any kind (scalar, string/bytes,
+   sub-message), the value present (replaced) or absent (appended at the end of the innermost message), every enclosing
+   length prefix re-patched - for every schema with legal field numbers and every well-formed message.
+   [actx = Some _] is exactly "the path is in this class" (it is a function of schema, message and path). *)
+Theorem C10_coded_refines_spec_msgpath_partial :
+  forall S root m ids x m' e c,
+  schema_ok S = true ->
+  wf_msg S root m = true -> blen (encode_msg m) < 2 ^ 63 -> blen (encode_msg m') < 2 ^ 63 ->
+  actx S root m ids = Some c ->
+  pset S root m (map PField ids) x = Some (m', e) ->
+  coded_set all_fixes S root (encode_msg m) (map PField ids) (wenc_val (sval x)) = CRes 0 e (encode_msg m').
+Proof.
+  intros S root m ids x m' e [[[[R1 l] R2] xo] tk]. intros. eapply coded_set_refines_msgpath'; eassumption.
+Qed.
+Print Assumptions C10_coded_refines_spec_msgpath_partial.
+
+(* ... lifted over any list of such operations: every intermediate BUFFER is the encoding of the model state *)
+Theorem C10_history_refines_msgpath_partial :
+  forall S root ops m,
+  schema_ok S = true -> wf_msg S root m = true -> ops_in_msgpath_fragment S root m ops ->
+  forall k, fold_left (coded_setp_bytes S root) (firstn k ops) (encode_msg m)
+            = encode_msg (fold_left (spec_setp S root) (firstn k ops) m).
+Proof. exact history_refines_msgpath. Qed.
+Print Assumptions C10_history_refines_msgpath_partial.
+
 (* non-vacuity: a root message with a string, an int32 and a sub-message field; replace (1 -> 2-byte length), append an
    absent scalar, append an absent sub-message: the hypotheses of the history theorem hold and both sides compute *)
 Definition exS2 : schema :=
@@ -333,6 +381,7 @@ Proof.
           | do 2 eexists; vm_compute; repeat split; reflexivity ].
 Qed.
 
+<<<<<<< HEAD
 (* ================================================================== (G) proto/binary Skip from the Go source *)
 (* Skip / SkipFixed32Type / SkipFixed64Type / SkipBytesType are translated from proto/binary/binary_skip.go on every build
    (gen/Gen_protoskip.v).  For the four wire types of proto3 Skip succeeds exactly when the model's wire decoder wdec_val reads one value
@@ -344,3 +393,20 @@ Theorem C10_Skip_from_source :
   (forall buf rd wt u, wt <> 0 -> wt <> 1 -> wt <> 2 -> wt <> 5 -> Gen_protoskip.BinaryProtocol_Skip buf rd wt u = (0, buf, rd)).
 Proof. split; [exact GenProtoskipProofs.Skip_is_wdec_val | exact GenProtoskipProofs.Skip_other]. Qed.
 Print Assumptions C10_Skip_from_source.
+=======
+(* non-vacuity at depth 3: M0 { 3: M1 { 2: M1 { 1: string } } }: replace the innermost string by 130 bytes (all three
+   enclosing lengths go from 1 to 2 bytes), then append an absent field two levels down *)
+Definition exS3 : schema :=
+  [mk_mdesc [77; 48] [mk_fdesc 1 [115] [115] LSingular (TScalar 9); mk_fdesc 3 [109] [109] LSingular (TMsg [77; 49])];
+   mk_mdesc [77; 49] [mk_fdesc 1 [115] [115] LSingular (TScalar 9); mk_fdesc 2 [109] [109] LSingular (TMsg [77; 49]);
+                      mk_fdesc 7 [105] [105] LSingular (TScalar 16)]].
+Definition exM3 : pmsg := [(1, VBytes 9 [120]); (3, VMsg [(2, VMsg [(1, VBytes 9 (repeat 97 120%nat))])])].
+Definition exOps3 : list (list Z * pval) :=
+  [([3; 2; 1], VBytes 9 (repeat 98 130%nat)); ([3; 2; 7], VScalar 16 (-5)); ([3; 1], VBytes 9 [])].
+Example C10_history_refines_msgpath_example :
+  schema_ok exS3 = true /\ wf_msg exS3 [77; 48] exM3 = true /\ (fold_left (coded_setp_bytes exS3 [77; 48]) exOps3 (encode_msg exM3)
+   = encode_msg (fold_left (spec_setp exS3 [77; 48]) exOps3 exM3)) /\ (fold_left (spec_setp exS3 [77; 48]) exOps3 exM3
+   = [(1, VBytes 9 [120]);
+      (3, VMsg [(2, VMsg [(1, VBytes 9 (repeat 98 130%nat)); (7, VScalar 16 (-5))]); (1, VBytes 9 [])])]).
+Proof. vm_compute. repeat split; reflexivity. Qed.
+>>>>>>> c10-pedit
